@@ -4,7 +4,10 @@
    such structure satisfying the laws `amp_laws` (a commutative multiplicative structure in which the weights that occur are
    invertible, theta-operations linear).  The values returned by the implementation are compared with the dense Born
    amplitudes by the oracle of harness/c08.py (stream `sample`); the operator selection `sample_op_indices` is run against the
-   implementation (stream `sample_ops`, checker check_sample_ops_case); the weight loop is tied to the code by reading the source only.
+   implementation (stream `sample_ops`, checker check_sample_ops_case); the weight loop (sample_factors, sample_weight) is run
+   against the implementation in the stream `sample_loop`: Model/SampleCheck.v instantiates K, V with exact Gaussian rationals /
+   rank-3 tensors and compares the per-site weights and the returned weight with those of sample_measurements(ops=None) on
+   MPS with exactly representable tensors (checker check_sample_case).
 
        sigmas = []; total_weight = 1.0
        theta = self.get_theta(first_site, n=1)
